@@ -46,7 +46,7 @@ def judge_program(case, judge, caps=None):
         oc = opt_class(c.opts)
         feats.add(f"vec:{int(oc['inline'])}{int(oc['tail'])}{int(oc['conv'] == 'pushpop')}")
         for es in case["env_seeds"]:
-            vm = H.run_vm(c.code, es, lits, funcs=c.funcs, prog=c.prog, soft=(judge == "trace"), **caps)
+            vm = H.run_vm(c.code, es, lits, funcs=c.funcs, prog=c.prog, soft=(judge in ("trace", "region")), **caps)
             cnt["vm_runs"] += 1
             if vm["status"] == "unmodelled":
                 cnt["unmodelled"] += 1
@@ -75,8 +75,15 @@ def judge_program(case, judge, caps=None):
                 problems.append(dict(signature=dict(event_sig(ev), **oc), detail=dict(event=ev)))
             elif judge == "region" and ev is not None and ev["monitor"] == "region":
                 problems.append(dict(signature=dict(event_sig(ev), **oc), detail=dict(event=ev)))
-            elif judge in ("calls", "region") and ev is not None:
+            elif judge == "calls" and ev is not None:
                 pass  # another monitor's event: that property's check reports it; nothing after it is judged
+            elif judge == "region" and ev is not None:
+                # another monitor's event came first (C06 reports it); the run went on as the chip would: what is
+                # still C07's business is whether the chip stops once the source's top-level code has ended
+                if ref["status"] == "end" and vm["status"] != "machine-error":  # a chip that stops with an error has stopped
+                    verdict, info = H.compare_traces(vm, ref)
+                    if verdict == "differ" and info["kind"] in ("ref-stopped-early", "one-side-loops-forever", "halt-kind"):
+                        problems.append(dict(signature=dict(monitor="termination", event="chip-keeps-running-after-source-ended", vm_status=vm["status"], machine_event=ev["event"], **oc), detail=dict(info=info, event=ev)))
             elif ref["status"] != "not-judged":
                 verdict, info = H.compare_traces(vm, ref)
                 cnt["effects_compared"] += min(len(vm["effects"]), len(ref["effects"]))
